@@ -946,7 +946,9 @@ class Path:
             return
         if not isinstance(o, SObj):
             raise Unsupported(f"setattr on {type(o).__name__}")
-        if isinstance(o.cls, str) or name not in o.fields:
+        has_setter = (not isinstance(o.cls, str)) and any(self.find_setter(c, name) is not None for c in o.cls.cands)
+        if isinstance(o.cls, str) or name not in o.fields or has_setter:
+            # (a class that defines a setter for this name decides what the assignment does, whatever the fixture stored in the field)
             cname = self.resolve_cls(o)
             st = self.find_setter(cname, name)
             if st is not None:
